@@ -110,11 +110,15 @@ Section Merkle.
           else play rest rowlen (index / 2) h ps
     end.
 
-  (* the `None` ("empty proof") playback loop: only the index moves *)
-  Fixpoint skip_rows (ls : list nat) (rowlen index : nat) : nat :=
+  (* the `None` ("empty proof") playback loop: only the index moves, and an absent proof is refused as soon as a
+     sibling hash would be needed (`if index % 2 == 1 || index + 1 < layer { return false; }`) *)
+  Fixpoint skip_rows (ls : list nat) (rowlen index : nat) : option nat :=
     match ls with
-    | [] => index
-    | layer :: rest => if layer =? rowlen then index else skip_rows rest rowlen (index / 2)
+    | [] => Some index
+    | layer :: rest =>
+        if layer =? rowlen then Some index
+        else if Nat.odd index || (index + 1 <? layer) then None
+        else skip_rows rest rowlen (index / 2)
     end.
 
   Definition check_merkle_tree (count : nat) (row : list bytes) (h : bytes) (location : N)
@@ -128,7 +132,11 @@ Section Merkle.
           | Some (j, h') => hash_check row j h'
           | None => false
           end
-      | None => hash_check row (skip_rows (layout count) (length row) index) h
+      | None =>
+          match skip_rows (layout count) (length row) index with
+          | Some j => hash_check row j h
+          | None => false
+          end
       end.
 End Merkle.
 
